@@ -421,6 +421,28 @@ def spec_make_vector(chk, L):
             chk.oblige(ex, unit, "make-vector k obj: a fresh mutable vector of k copies of obj", z3.And(*post), inputs, replay)
         else:
             chk.oblige(ex, unit, "make-vector: negative length => NegativeLength", z3.And(k < 0, z3.BoolVal(nl.err_kind(ex, rv.fields[0]) == "NegativeLength")), inputs, replay)
+    # a vector as the fill object: every slot (and the fill itself) designates the same storage
+    inner, iseq = mk_vector(ex, "fillvec", [z3.Int("f0")], 1, True)
+    k2 = ex.fresh_int(name="k2", ty="i32")
+    inputs3 = {"k": k2}
+
+    def replay3(vals):
+        kk = vals["k"]
+        if kk > 8 or kk < 1:
+            return False, "outside replay range"
+        prog = "(define row (vector 0)) (define m (make-vector %d row)) (vector-set! (vector-ref m %d) 0 7) (vector-ref row 0) (vector-ref (vector-ref m 0) 0)" % (kk, kk - 1)
+        out = nat.cmd("eval %s" % hexs(prog)).split(" ;; ")
+        return not (out[-1].strip() == "OK I 7" and out[-2].strip() == "OK I 7"), "%s -> %s" % (prog, out[-2:])
+
+    args = SeqObj("args", "values::Value<R>", [Cell(int_value(k2)), Cell(inner)], 2, 2)
+    for rv in ex.run(f, [args]):
+        chk.path(unit)
+        if rv.variant != "Ok":
+            continue
+        seq = seq_of_value(ex, rv.fields[0])
+        n = seq.ln if isinstance(seq.ln, int) else L
+        same = [z3.BoolVal(seq_of_value(ex, ex.seq_item(seq, j).v) is iseq) for j in range(min(n, seq.max))]
+        chk.oblige(ex, unit, "make-vector k v with a vector v: every slot is an alias of v (no copy)", z3.And(*same) if same else z3.BoolVal(True), inputs3, replay3)
     if beyond:
         chk.notes.append("make-vector: lengths beyond %d are outside the bound (path cut %d time(s))" % (L, len(beyond)))
     # (vector a b ...) builds a fresh mutable vector of its arguments in order
@@ -506,3 +528,5 @@ def run(chk):
     chk.step("vector-set! container", spec_vector_set, chk, L, "container")
     chk.step("vector-ref", spec_vector_ref, chk, L)
     chk.step("make-vector", spec_make_vector, chk, L)
+    from .c01_parts import spec_apply_scheme
+    chk.step("fresh frame per call", spec_apply_scheme, chk, "", ("fresh",))
